@@ -68,9 +68,13 @@ def make_job(rng, sv, doc):
         return ('compile', pat, None)
     if r < .7:
         return ('compile', rng.choice(CUSTOMS), 'fresh')
-    q = rng.choice(QUERIES)
-    op = rng.choice(['select', 'select', 'match', 'filter', 'closest'])
-    return (op, q, None)
+    if r < .8:
+        q = rng.choice(QUERIES)
+        op = rng.choice(['select', 'select', 'match', 'filter', 'closest'])
+        return (op, q, None)
+    # queries on parentless trees (each job owns one): positional pseudo-classes need a stand-in parent there
+    return ('detached', rng.choice(['div:first-child > p', ':only-child', 'div:nth-child(1) p:nth-child(2)', ':root > p:last-child',
+                                    'div:nth-last-of-type(1) > :first-child', ':not(:nth-child(2)) > p']), rng.randrange(3))
 
 
 def instantiate(jobs):
@@ -92,6 +96,9 @@ def thunk(sv, doc, job):
     kind, text, custom = job
     if kind == 'compile':
         return lambda: sv.compile(text, custom=custom)
+    if kind == 'detached':
+        d2 = _detached(custom)
+        return lambda: [sv.match(text, d2)] + sv.select(text, d2)
     if kind == 'select':
         return lambda: sv.select(text, doc)
     if kind == 'match':
@@ -102,9 +109,28 @@ def thunk(sv, doc, job):
     return lambda: sv.closest(text, doc.span)
 
 
+_DET = {}
+
+
+def _detached(i):
+    """Parentless element trees (never attached to a document), one per index."""
+    import bs4
+    if i not in _DET:
+        soup = bs4.BeautifulSoup('', 'html.parser')
+        d = soup.new_tag('div')
+        for j in range(2 + i):
+            p = soup.new_tag('p')
+            p.string = 'p%d' % j
+            d.append(p)
+        _DET[i] = d
+    return _DET[i]
+
+
 def norm(kind, val):
     if kind == 'compile':
         return val.selectors
+    if kind == 'detached':
+        return [val[0]] + [id(x) for x in val[1:]]
     if isinstance(val, list):
         return [id(x) for x in val]
     return id(val) if not isinstance(val, bool) and val is not None else val
